@@ -15,7 +15,7 @@ use crate::sim::{build_tx, txid_of, Env, Replacement, RpcRecord, TxName};
 use crate::tower::{user_keys, Api, ApiErr, DbView, Keys, ScratchDb, Tower, TowerCfg};
 
 /// What the encrypted blob of a submitted appointment contains.
-#[derive(Clone, Copy, Debug, PartialEq, Eq, Hash, PartialOrd, Ord)]
+#[derive(Clone, Copy, Debug, PartialEq, Eq, Hash, PartialOrd, Ord, serde::Serialize, serde::Deserialize)]
 pub enum Blob {
     /// encrypt(P(k), txid(D(k)))
     Valid,
@@ -69,14 +69,14 @@ fn encrypt_raw(_bytes: &[u8], key: &Txid) -> Vec<u8> {
     cryptography::encrypt(&tx, key).unwrap()
 }
 
-#[derive(Clone, Debug, PartialEq, Eq, Hash, PartialOrd, Ord)]
+#[derive(Clone, Debug, PartialEq, Eq, Hash, PartialOrd, Ord, serde::Serialize, serde::Deserialize)]
 pub enum MineSel {
     Empty,
     Mempool,
     Txs(Vec<TxName>),
 }
 
-#[derive(Clone, Debug, PartialEq, Eq, Hash, PartialOrd, Ord)]
+#[derive(Clone, Debug, PartialEq, Eq, Hash, PartialOrd, Ord, serde::Serialize, serde::Deserialize)]
 pub enum Ev {
     Register(u8),
     Add { user: u8, disp: u8, blob: Blob, tsd: u32 },
@@ -192,6 +192,7 @@ pub struct World {
     rpc_pos: usize,
     ev_pos: usize,
     pub dead: bool,
+    reader: std::cell::RefCell<Option<rusqlite::Connection>>,
 }
 
 pub fn panic_message(p: &Box<dyn std::any::Any + Send>) -> String {
@@ -223,7 +224,8 @@ pub fn install_panic_hook() {
             .unwrap_or_default();
         let is_marker = info.payload().downcast_ref::<teos_common::verif::CrashMarker>().is_some()
             || info.payload().downcast_ref::<crate::sched::Teardown>().is_some();
-        if !is_marker && std::env::var("VERIF_SHOW_PANICS").is_ok() {
+        let in_harness = info.location().map_or(false, |l| l.file().starts_with("src/"));
+        if !is_marker && (in_harness || std::env::var("VERIF_SHOW_PANICS").is_ok()) {
             eprintln!("[panic] {info}");
         }
         let _ = LAST_PANIC_LOCATION.try_with(|l| *l.borrow_mut() = Some(loc));
@@ -250,6 +252,7 @@ impl World {
             rpc_pos: 0,
             ev_pos: 0,
             dead: false,
+            reader: std::cell::RefCell::new(None),
         }
     }
 
@@ -274,7 +277,11 @@ impl World {
     }
 
     pub fn db_view(&self) -> DbView {
-        DbView::read(&self.db.path)
+        let mut r = self.reader.borrow_mut();
+        if r.is_none() {
+            *r = Some(DbView::open(&self.db.path));
+        }
+        DbView::read_conn(r.as_ref().unwrap())
     }
 
     pub fn chain_height(&self) -> u32 {
@@ -423,11 +430,15 @@ impl World {
 
     pub fn fingerprint_parts(&self) -> (String, String, String) {
         let db = self.db_view().canonical();
-        let snap = self
-            .tower
-            .as_ref()
-            .map(|t| t.snapshot())
-            .unwrap_or_else(|| "<down>".into());
+        let snap = if self.dead {
+            "<dead>".to_owned()
+        } else {
+            match catch_unwind(AssertUnwindSafe(|| self.tower.as_ref().map(|t| t.snapshot()))) {
+                Ok(Some(s)) => s,
+                Ok(None) => "<down>".into(),
+                Err(_) => "<poisoned>".into(),
+            }
+        };
         let env = self.env.lock().fingerprint();
         (db, snap, env)
     }
